@@ -620,15 +620,31 @@ func (g *pGen) sequence(steps int) {
 		mid := v.MessageID()
 		hit := cache.forceHit || cache.m[mid]
 		var err error
-		res := func() (s string) {
-			defer func() {
-				if e := recover(); e != nil {
-					s = "panic"
-				}
+		// Push must not block (its hand-off is a non-blocking send): run it with a deadline so that a blocking
+		// implementation shows up as res=blocked instead of hanging the run.
+		resC := make(chan string, 1)
+		go func() {
+			resC <- func() (s string) {
+				defer func() {
+					if e := recover(); e != nil {
+						s = "panic"
+					}
+				}()
+				err = consumer.Push(context.Background(), v, serialized)
+				return ""
 			}()
-			err = consumer.Push(context.Background(), v, serialized)
-			return ""
 		}()
+		var res string
+		select {
+		case res = <-resC:
+		case <-time.After(20 * time.Second):
+			for len(queue) > 0 { // unblock it
+				<-queue
+			}
+			<-resC
+			res = "blocked"
+			before = 0
+		}
 		g.chain.failAt = map[uint32]bool{}
 		// what appeared on the queue
 		enq := len(queue) > before
